@@ -323,7 +323,15 @@ func c08Program(c *core.C) {
 	share := c.K%2 == 0
 	pool := []*sbom.NodeList{}
 	for i := 0; i < 4; i++ {
-		pool = append(pool, gen.RandomNodeList(r, gen.GraphOpts{Universe: ids, EdgeTypes: c08Types, PNode: 0.2 + 0.6*r.Float64(), PEdge: 0.02 + 0.2*r.Float64(), PRoot: 0.3 * r.Float64(), NodeMaker: mk, SplitEdges: false}))
+		// half of the initial lists are well-formed but NOT normalised: one stored edge per target, some stated twice
+		nl := gen.RandomNodeList(r, gen.GraphOpts{Universe: ids, EdgeTypes: c08Types, PNode: 0.2 + 0.6*r.Float64(), PEdge: 0.02 + 0.2*r.Float64(), PRoot: 0.3 * r.Float64(), NodeMaker: mk, SplitEdges: i%2 == 1})
+		if i%2 == 1 && len(nl.Edges) > 0 {
+			for j := 0; j < 1+r.Intn(3); j++ {
+				nl.Edges = append(nl.Edges, gen.Clone(nl.Edges[r.Intn(len(nl.Edges))]))
+			}
+			r.Shuffle(len(nl.Edges), func(a, b int) { nl.Edges[a], nl.Edges[b] = nl.Edges[b], nl.Edges[a] })
+		}
+		pool = append(pool, nl)
 	}
 	pool = append(pool, &sbom.NodeList{}, sbom.NewNodeList())
 	steps := 5 + r.Intn(26)
